@@ -147,8 +147,17 @@ def _r1_r2(ctx, fl, pfn, pname):
             for x in walk(f.value) if f.value else ():
                 if isinstance(x, tuple) and x and x[0] == "join" and x[1] == ("const", "|"):
                     r = _is_len_desc_sorted(x[2]) if x[2][0] == "call" else None
-                    ok = (r not in (None, "other", "unknown")) if ok is None else ok
-        if ok is None:
+                    # understood and wrong: sorted in another order, or the configured lists concatenated as they are; a list this
+                    # rule cannot trace (a parameter, an accumulator, a helper's result) is not read
+                    if r not in (None, "other", "unknown"):
+                        ok = True if ok is None else ok
+                    elif r == "other" or (r is None and simp(x[2])[0] in ("binop", "list") and not any(y[0] in ("call", "meth", "acc") for y in walk(simp(x[2])) if isinstance(y, tuple) and y)):
+                        ok = False
+                    elif ok is None:
+                        ok = "unread"
+        if ok == "unread":
+            ctx.unrec("R1", f"{pname}:alternation order", W, "the symbols are joined into one alternation, but the order of the joined list is not read")
+        elif ok is None:
             ctx.unrec("R1", f"{pname}:scan", W, "the tokenizer is not a per-symbol regular-expression scan nor an alternation of the symbols: longest-match discipline not decidable")
         else:
             ctx.check(ok, "R1", f"{pname}:alternation order", W, "the alternation lists the symbols longest first" if ok else
@@ -160,8 +169,19 @@ def _r1_r2(ctx, fl, pfn, pname):
     key = f"{pname}:symbols longest first"
     where = (SP, sym_loop.line)
     if r is None:
-        plain = it[0] in ("binop", "param", "attr", "list") or (it[0] == "call" and it[1] == ("global", "list"))
-        if plain:
+        plain = it[0] in ("binop", "attr", "list") or (it[0] == "call" and it[1] == ("global", "list"))
+        if it[0] == "param":
+            # the list is HANDED to the tokenizer: the order is the caller's business -- every call site inside the class passes
+            # sorted(.., key=len, reverse=True) (ok), or some call site passes the configured lists as they are (wrong)
+            verdicts = _param_order(ctx, pfn, pname, it[1])
+            if verdicts and all(v is True for v in verdicts):
+                ctx.ok("R1", key, where, "symbols are tried longest first (sorted by the callers that hand the list over)")
+            elif any(v is False for v in verdicts):
+                ctx.bad("R1", key, where, "the symbols are tried in the order of the list a caller hands over unsorted: a short symbol listed before a longer one that contains it "
+                        "(S before Si, H before He) claims its characters first", expected="sorted(symbols, key=len, reverse=True)", found=show(it)[:100])
+            else:
+                ctx.unrec("R1", key, where, f"the symbol list is a parameter (`{it[1]}`) and the order its callers establish is not read")
+        elif plain:
             ctx.bad("R1", key, where, "the symbols are tried in the order of the configured lists (" + show(it)[:80] + "): a short symbol listed before a longer one that contains it "
                     "(S before Si, H before He, C before Cl) claims its characters first -- Si is read as S + i", expected="sorted(symbols, key=len, reverse=True)", found=show(it)[:100])
         else:
@@ -226,6 +246,34 @@ def _r1_r2(ctx, fl, pfn, pname):
                   "text between two symbols (counts) is cut at the wrong places", expected="text[:start] + ' ' * (end - start) + text[end:]", found=show(simp(v))[:120])
 
 
+def _param_order(ctx, pfn, pname, param):
+    """[True | False | None] per call site of the tokenizer inside Species: the argument bound to `param` is sorted longest first /
+    is a plain concatenation of the configured lists / is not read"""
+    pkg = package(ctx.tree)
+    ci = pkg.cls("Species")
+    params = [a.arg for a in pfn.args.args]
+    if param not in params:
+        return []
+    pos = params.index(param) - 1          # without self
+    out = []
+    for mname, fn in ci.methods.items():
+        if mname == pname or not isinstance(fn, ast.FunctionDef):
+            continue
+        if not any(isinstance(c, ast.Call) and isinstance(c.func, ast.Attribute) and c.func.attr == pname for c in ast.walk(fn)):
+            continue
+        fl = Flow(fn, SP)
+        for f in fl.facts:
+            if f.kind == "call" and f.target == pname and f.value is not None and f.value[0] == "meth":
+                a = dict(f.value[4]).get(param) if param in dict(f.value[4]) else (f.value[3][pos] if 0 <= pos < len(f.value[3]) else None)
+                if a is None:
+                    out.append(None)
+                    continue
+                r = _is_len_desc_sorted(a)
+                a = simp(a)
+                out.append(True if r not in (None, "other", "unknown") else False if r == "other" or (r is None and a[0] in ("binop", "list", "attr")) else None)
+    return out
+
+
 def _add_parts(v):
     if v[0] == "binop" and v[1] == "Add":
         return _add_parts(v[2]) + _add_parts(v[3])
@@ -264,6 +312,12 @@ def _r3(ctx, fl, pfn, pname):
         return
     neg = [f for f, g, pol in digit_guards if pol is False]
     raised = [f for f in neg if f.kind == "raise"]
+    # the non-digit arm hands the text to something this rule does not follow (a rejecting helper, an error collector): not read
+    handed = [f for f in neg if f.kind == "call" and f.value is not None and not (f.value[0] == "meth" and simp(f.value[1]) in (("global", "logging"), ("global", "logger"), ("global", "warnings")))
+              and f.target not in ("append", "warning", "info", "debug", "error", "warn", "print")]
+    if not raised and handed:
+        ctx.unrec("R3", key, (SP, handed[0].line), f"text that is not a number is handed to `{handed[0].target}`; whether that rejects it is not read")
+        return
     ctx.check(bool(raised), "R3", key, (SP, (raised or neg or [digit_guards[0][0]])[0].line),
               "text between two symbols that is not a number raises" if raised else
               "text between two symbols that is not a number does not raise: a name containing characters of no configured symbol (a typo, a symbol of another "
